@@ -6,6 +6,8 @@
  */
 #include "xattr_writer.h"
 
+static void xattr_writer_destroy(sqfs_object_t *obj);
+
 static sqfs_object_t *xattr_writer_copy(const sqfs_object_t *obj)
 {
 	const sqfs_xattr_writer_t *xwr = (const sqfs_xattr_writer_t *)obj;
@@ -29,6 +31,13 @@ static sqfs_object_t *xattr_writer_copy(const sqfs_object_t *obj)
 
 	if (rbtree_copy(&xwr->kv_block_tree, &copy->kv_block_tree) != 0)
 		goto fail_tree;
+
+	/* the copy is an object of its own: it compares blocks against its
+	   own pair array and builds its own block list */
+	sqfs_object_init(copy, xattr_writer_destroy, xattr_writer_copy);
+	copy->kv_block_tree.key_context = copy;
+	copy->kv_block_first = NULL;
+	copy->kv_block_last = NULL;
 
 	for (it = xwr->kv_block_first; it != NULL; it = it->next) {
 		rbtree_node_t *n = rbtree_lookup(&copy->kv_block_tree, it);
